@@ -633,6 +633,18 @@ fn check_impl<S: Scenario>(id: &str, tier: Tier) -> i32 {
                 }
                 WorkerResult::Died {
                     at: Some((u, k)),
+                    status,
+                    ..
+                } if status.contains("exit status: 101") => {
+                    // an unwind that escaped every guard: a panic in the harness itself,
+                    // not in the code under test (those are caught around each call)
+                    harness.push(format!(
+                        "worker panicked outside the code under test at unit {} plan {} ({}); see stderr",
+                        u, k, status
+                    ));
+                }
+                WorkerResult::Died {
+                    at: Some((u, k)),
                     hang,
                     status,
                 } if u >= start && u < end => {
